@@ -26,7 +26,7 @@ ASSUMPTIONS = [
     "predicates are pure functions of the offered NodeTraversalInfo",
     "reference walker (20 lines) encodes the statement: pruned nodes are offered to filter, their descendants are not visited",
 ]
-MUST_SEE = ["gather_with_empty_class_tuple", "children_read_twice_around_caller_mutation", "children_of_slotted_instances", "traversal_after_replace_with_equal_children", "falsy_callable_predicates", "positional_predicates", "late_defined_subclass", "prune_not_filter_with_desc", "falsy_children", "shared_objects", "bottom_up_with_prune", "gather_calls", "deep_chain", "deep_3000_traversals", "abandoned_traversals", "reentrant_predicates"]
+MUST_SEE = ["gather_naming_the_root_base_class", "traversal_below_class_redefined_with_children", "gather_with_empty_class_tuple", "children_read_twice_around_caller_mutation", "children_of_slotted_instances", "traversal_after_replace_with_equal_children", "falsy_callable_predicates", "positional_predicates", "late_defined_subclass", "prune_not_filter_with_desc", "falsy_children", "shared_objects", "bottom_up_with_prune", "gather_calls", "deep_chain", "deep_3000_traversals", "abandoned_traversals", "reentrant_predicates"]
 CONFIG = {
     "quick": {"shards": 16, "small_trees": 600, "exh_n": 4, "large_trees": 300, "watchdog_s": 300},
     "thorough": {"shards": 32, "small_trees": 400, "exh_n": 6, "large_trees": 250, "watchdog_s": 3000},
@@ -410,13 +410,15 @@ def run_shard(ctx):
                 got = list(root.dfs())
                 check_stream("dfs", got, all_pre, frozenset(), frozenset(id(o) for o in objs), None, None, all_pre)
             # gather
-            classes = sorted({type(o).__name__ for o in objs}) + [f"{P}Expr", f"{P}Leaf"]
+            classes = sorted({type(o).__name__ for o in objs}) + [f"{P}Expr", f"{P}Leaf", "ASTNode"]
             for _ in range(3):
                 k = rng.randint(1, 2) if rng.random() < 0.9 else 0  # (an empty tuple of classes: instances of no class)
                 if k == 0:
                     ctx.count("gather_with_empty_class_tuple")
                 cns = tuple(rng.sample(classes, min(k, len(classes))))
-                clss = tuple(U.cls[c] for c in cns)
+                clss = tuple(ASTNode if c == "ASTNode" else U.cls[c] for c in cns)
+                if ASTNode in clss:
+                    ctx.count("gather_naming_the_root_base_class")
                 exact = rng.random() < 0.5
                 use_extra = rng.random() < 0.5
                 use_prune = rng.random() < 0.7
@@ -495,3 +497,31 @@ def run_shard(ctx):
         got = list(t1.gather(cls_, exact_type=exact))
         if [id(x) for x in got] != [id(x) for x in exp]:
             ctx.violation("gather-late-subclass", "gather misses / misplaces an instance of a subclass defined after gather was first used", {"classes": str(cls_), "exact_type": exact, "got": len(got), "expected": len(exp)})
+
+
+_c05_run_shard = run_shard
+
+
+def run_shard(ctx):  # noqa: F811 - the main loop, then a leg that needs a history of class definitions
+    _c05_run_shard(ctx)
+    if ctx.only_case is not None:
+        return
+    from vlib.universe import remodelled_class
+
+    U = core_universe()
+    P = U.P
+    # a class without child fields was in use; a class with child fields is defined under the same name (a re-run model
+    # cell) and its instances are traversed like any other node
+    for tag, leaf_first in (("C05a", True), ("C05b", False)):
+        old, new, leaf = remodelled_class(U, tag, leaf_first=leaf_first)
+        inner = new(first=leaf(v=1), v=1, second=(leaf(v=2), U.cls[f"{P}Un"](child=leaf(v=3))), third=leaf(v=4))
+        root = U.cls[f"{P}List"](items=(leaf(v=0), inner, leaf(v=5)))
+        exp = [0, None, 1, 2, None, 3, 4, 5]
+        for name, call in (("dfs", lambda: [getattr(i.node, "v", None) if isinstance(i.node, leaf) else None for i in root.dfs()]), ("gather", lambda: [x.v for x in root.gather(leaf)]), ("bfs", lambda: sorted(x.node.v for x in root.bfs() if isinstance(x.node, leaf)))):
+            ctx.evaluations += 1
+            ctx.count("traversal_below_class_redefined_with_children")
+            got = call()
+            want = exp if name == "dfs" else [0, 1, 2, 3, 4, 5]
+            if got != want:
+                ctx.violation(f"{name}-stream-mismatch", f"{name} below an instance of a class that was defined again under its name (now with child fields) misses descendants", {"got": got, "expected": want, "first_definition_without_children": leaf_first})
+        root.detach()
